@@ -211,7 +211,41 @@ func concPlan() (jobs []struct {
 	return
 }
 
+// VH_CONC_BURST=<workload>: a fresh process whose very first use of the library is `n` instances of one workload kind
+// released together by a barrier — lazily initialised package state (caches filled on first use) is then initialised
+// concurrently, which is the only moment such state races.
+func runConcBurst(kind string) {
+	n := 12
+	start := make(chan struct{})
+	res := make([]string, n)
+	var wg sync.WaitGroup
+	for i := 0; i < n; i++ {
+		wg.Add(1)
+		go func(i int) {
+			defer wg.Done()
+			defer func() {
+				if r := recover(); r != nil {
+					res[i] = fmt.Sprint("panic: ", r)
+				}
+			}()
+			<-start
+			res[i] = workloads[kind](uint64(1000 + i))
+		}(i)
+	}
+	close(start)
+	wg.Wait()
+	w := bufio.NewWriter(os.Stdout)
+	for i := range res {
+		fmt.Fprintf(w, "B %s %x %q\n", kind, 1000+i, res[i])
+	}
+	w.Flush()
+}
+
 func runConcChild() {
+	if k := os.Getenv("VH_CONC_BURST"); k != "" {
+		runConcBurst(k)
+		return
+	}
 	jobs := concPlan()
 	rounds := 3
 	out := make([][]string, rounds)
@@ -268,6 +302,70 @@ func runConc() {
 	} else if err != nil {
 		rep.Add(report.Finding{Property: "C18", Kind: "violation", Clause: "concurrent run failed: " + err.Error(), Input: in, Detail: tailStr(stderr.String(), 2000)})
 	}
+	// first-use bursts: fresh race-enabled processes per workload kind (the detector keeps a bounded access history per
+	// word, so a racing first use is caught with high but not full probability per process: several attempts each)
+	bursts := 0
+	attempts := 4
+	if tier == "thorough" {
+		attempts = 12
+	}
+	type burstRes struct {
+		kind     string
+		out, err string
+		runErr   error
+	}
+	var bres []burstRes
+	var bmu sync.Mutex
+	var bwg sync.WaitGroup
+	sem := make(chan struct{}, 8)
+	for _, kind := range workloadNames() {
+		for k := 0; k < attempts; k++ {
+			bwg.Add(1)
+			go func(kind string) {
+				defer bwg.Done()
+				sem <- struct{}{}
+				defer func() { <-sem }()
+				bc := exec.Command(raceBin, "conc-child", "-tier", tier, "-seed", fmt.Sprint(seed))
+				bc.Env = append(os.Environ(), "GORACE=halt_on_error=0 exitcode=66", "VH_CONC_BURST="+kind)
+				var bo, be bytes.Buffer
+				bc.Stdout, bc.Stderr = &bo, &be
+				e := bc.Run()
+				bmu.Lock()
+				bres = append(bres, burstRes{kind, bo.String(), be.String(), e})
+				bmu.Unlock()
+			}(kind)
+		}
+		rep.Count("first-use burst " + kind)
+	}
+	bwg.Wait()
+	sort.Slice(bres, func(i, j int) bool { return bres[i].kind < bres[j].kind })
+	reported := map[string]bool{}
+	for _, br := range bres {
+		bin := fmt.Sprintf("VH_CONC_BURST=%s %s conc-child", br.kind, raceBin)
+		if strings.Contains(br.err, "DATA RACE") {
+			if !reported[br.kind] {
+				reported[br.kind] = true
+				rep.Add(report.Finding{Property: "C18", Kind: "violation", Clause: "the race detector reports a data race when instances of kind " + br.kind + " are the first users of the library, concurrently (lazily initialised shared state)",
+					Input: bin, Detail: clip(br.err, 3000)})
+			}
+		} else if br.runErr != nil && !reported[br.kind] {
+			reported[br.kind] = true
+			rep.Add(report.Finding{Property: "C18", Kind: "violation", Clause: "concurrent first-use run of " + br.kind + " failed: " + br.runErr.Error(), Input: bin, Detail: tailStr(br.err, 2000)})
+		}
+		for _, line := range strings.Split(br.out, "\n") {
+			var name, got string
+			var s uint64
+			if _, e := fmt.Sscanf(line, "B %s %x %q", &name, &s, &got); e != nil {
+				continue
+			}
+			bursts++
+			if want := workloads[name](s); got != want && !reported[name+"/result"] {
+				reported[name+"/result"] = true
+				rep.Add(report.Finding{Property: "C18", Kind: "violation", Clause: "workload " + name + " gives a different result when it is first used concurrently",
+					Input: fmt.Sprintf("%s seed %x", name, s), Expected: clip(want, 300), Actual: clip(got, 300)})
+			}
+		}
+	}
 	n := 0
 	for _, line := range strings.Split(stdout.String(), "\n") {
 		var round int
@@ -289,11 +387,11 @@ func runConc() {
 	if n == 0 && err == nil {
 		rep.Add(report.Finding{Property: "C18", Kind: "disagreement", Clause: "concurrent run produced no results", Input: in, Detail: tailStr(stderr.String(), 1000)})
 	}
-	rep.Evaluations = int64(n)
+	rep.Evaluations = int64(n + bursts)
 	rep.Distinct = int64(len(workloads))
 	rep.Rule = "workloads (each builds its own instances): primary CPU + bus + disassembler 150 steps, cpualt 150 steps, emulator.System RunUntil with Logger and OnWDM, Emitter program with labels/Finalize/" +
 		"listings, ROM header read/write + BusReader, stateless mapper/colour sweeps; all instances of all kinds run concurrently (one goroutine each, 3 rounds) in a -race build and are compared with the " +
-		"sequential results; evaluations = concurrent workload executions compared"
+		"sequential results; before that, per workload kind, a fresh -race process whose first use of the library is 12 instances of that kind released by a barrier (concurrent lazy initialisation); evaluations = concurrent workload executions compared"
 	rep.Emit()
 }
 
